@@ -68,10 +68,16 @@ func ParseMessage(b []byte) (_ Message, size int, err error) {
 	}
 
 	num := m.Fields()
+	total := 0
 	for i := 0; i < num; i++ {
 		b1 := m.fieldAt(i)
 		if len(b1) == 0 {
 			continue
+		}
+
+		// Field values must fit into the message data together
+		if total, err = addValueSize(total, b1, int(table.DataSize())); err != nil {
+			return
 		}
 
 		if _, _, err = ParseValue(b1); err != nil {
